@@ -37,7 +37,12 @@ class Case:
                 ins = ins + [(term, None)]
                 layout.append(dict(kind="c", ins=ins, func=f if f < nfun else None, fb=b))
             if with_data and rnd.random() < 0.3:
-                layout.append(dict(kind="d", data=bytes(rnd.randrange(256) for _ in range(rnd.randint(1, 4))), func=None))
+                if rnd.random() < 0.5:
+                    # words with symbolic expressions (filled in below): modifications stay on word boundaries
+                    nw = rnd.randint(1, 3)
+                    layout.append(dict(kind="d", data=bytes(4 * nw), func=None, dsym={4 * w: None for w in range(nw) if rnd.random() < 0.6}))
+                else:
+                    layout.append(dict(kind="d", data=bytes(rnd.randrange(256) for _ in range(rnd.randint(1, 4))), func=None))
         # last code block of each function returns
         for f in range(nfun):
             own = [x for x in layout if x.get("func") == f]
@@ -51,6 +56,9 @@ class Case:
             elif k == "call":
                 entries = [j for j in code_idx if layout[j].get("fb") == 0]
                 layout[i]["ins"][-1] = (k, rnd.choice(entries))
+        for x in layout:
+            if x.get("dsym"):
+                x["dsym"] = {o: rnd.choice(code_idx) for o in x["dsym"]}
         self.nfun = nfun
         # labels: every block gets a start label L<i>; some get extra start / end labels
         self.extra_start = {i for i in range(len(layout)) if rnd.random() < 0.2}
@@ -159,7 +167,7 @@ class Case:
     def bounds(self, i):
         x = self.blocks[i]
         if x["kind"] == "d":
-            return list(range(self.size(i) + 1))
+            return list(range(0, self.size(i) + 1, 4 if x.get("dsym") else 1))
         out = [0]
         for k, _ in x["ins"]:
             out.append(out[-1] + len(ENC[k]))
@@ -189,7 +197,12 @@ def build(case):
     exprs = []
     for i, x in enumerate(layout):
         if x["kind"] == "d":
-            gb = add_data_block(bi, x["data"])
+            se = {}
+            for o, t in (x.get("dsym") or {}).items():
+                e = gtirb.SymAddrConst(0, syms[t])
+                se[(o, 4)] = e
+                exprs.append(e)
+            gb = add_data_block(bi, x["data"], se)
         else:
             data = b"".join(ENC[k] for k, _ in x["ins"])
             se = {}
